@@ -2589,7 +2589,14 @@ class op(object):
         for i in  pwl_ineqs:
             mmap[i] = _function()
             for c in pwl_ineqs[i]:
-                mmap[i] = mmap[i] + constraints[0].multiplier[islc[c]]
+                if len(c) == len(i):
+                    mmap[i] = mmap[i] + \
+                        constraints[0].multiplier[islc[c]]
+                else:
+                    # c is the expansion of a scalar piece that stands 
+                    # for len(i) identical inequalities
+                    mmap[i] = mmap[i] + (1.0/len(i)) * \
+                        sum(constraints[0].multiplier[islc[c]])
             if len(i) == 1 != len(mmap[i]):
                 mmap[i] = sum(mmap[i])
 
